@@ -4,3 +4,5 @@ import EsbuildModel.Props.C19
 import EsbuildModel.Props.C03
 import EsbuildModel.Props.C14
 import EsbuildModel.Props.C02
+import EsbuildModel.Props.C01
+import EsbuildModel.Props.C13
